@@ -26,6 +26,9 @@ type vStoreWorld struct {
 	sver        map[string]int
 	rawP, rawC  *sql.DB // ungated read-only views for projection
 	tok         *vU2FToken
+	encMemo     map[string][][]byte // encrypted TOTP secret per user/version (see profile)
+	memoMu      sync.Mutex          // profile() is also called from the goroutines of save_parallel
+	regMemo     *u2fAuthData        // carries the token's registration, made once (its attestation signature is randomised too)
 }
 
 var vStoreUsers = []string{"alice", "bob", "carol"}
@@ -51,15 +54,31 @@ func newStoreWorld() *vStoreWorld {
 
 // a profile with real token data; the version lives in DisplayName
 func (g *vStoreWorld) profile(u string, v int) *userProfile {
-	enc, err := g.w.st.encryptWithPublicKeys([]byte(vTOTPSecret))
-	vMust(err)
+	// the encryption is randomised: version v of u's profile is encrypted ONCE, so that saving "the same profile again"
+	// (resave) really writes the bytes of the previous save - which is what a memo keyed on the bytes needs to be fooled
+	g.memoMu.Lock()
+	defer g.memoMu.Unlock()
+	key := fmt.Sprintf("%s/%d", u, v)
+	enc, have := g.encMemo[key]
+	if !have {
+		var err error
+		enc, err = g.w.st.encryptWithPublicKeys([]byte(vTOTPSecret))
+		vMust(err)
+		if g.encMemo == nil {
+			g.encMemo = map[string][][]byte{}
+		}
+		g.encMemo[key] = enc
+	}
+	if g.regMemo == nil {
+		g.regMemo = &u2fAuthData{Registration: g.tok.registration()}
+	}
 	p := &userProfile{Username: u, DisplayName: fmt.Sprintf("v%d", v), UserHasRegistered2ndFactor: true, WebauthnID: 77}
 	if u == "carol" {
 		// a user who has not registered any token yet
 		p.UserHasRegistered2ndFactor = false
 		return p
 	}
-	p.U2fAuthData = map[int64]*u2fAuthData{1: {Enabled: true, Name: "t", Registration: g.tok.registration(), Counter: uint32(v), CreatedAt: time.Unix(1700000000, 0)}}
+	p.U2fAuthData = map[int64]*u2fAuthData{1: {Enabled: true, Name: "t", Registration: g.regMemo.Registration, Counter: uint32(v), CreatedAt: time.Unix(1700000000, 0)}}
 	p.TOTPAuthData = map[int64]*totpAuthData{1: {Enabled: true, Name: "totp", EncryptedSecret: enc, CreatedAt: time.Unix(1700000000, 0)}}
 	p.LastSuccessfullTOTPCounter = int64(v)
 	return p
